@@ -299,6 +299,15 @@ def cmp_special(op, it, mt, tol):
             return close(fl(it[0]), exp, 1e-12)
         if name == 'layout':
             return cmp_layout(it, mt)
+        if name == 'to_nexus':
+            n = int(mt[0])
+            j = mt.index(']')
+            labels = ' '.join(dec_str(x) for x in mt[2:j])
+            nwk = mt[j + 1]
+            pre = "#NEXUS\nBEGIN TAXA;\n    DIMENSIONS NTAX=%d;\n    TAXLABELS %s;\nEND;\nBEGIN TREES;\n    TREE tree1 = " % (n, labels)
+            suf = "\nEND;\n"
+            items = [str(ord(c)) for c in pre] + [x for x in nwk[1:].split('.') if x != ''] + [str(ord(c)) for c in suf]
+            return match_rich(dec_str(it[0]), 'r' + '.'.join(items), tol)
     except (ValueError, IndexError, ZeroDivisionError):
         return False
     return None
